@@ -1,6 +1,6 @@
 (* C20 — Huffman code construction and bit I/O. Models: Prefix/Code.v
    (GenerateLengths with any limit, GeneratePrefixes), bit fields as bit lists. *)
-From V Require Import Base.Prelude Base.Prog Prefix.Code Prefix.Thms.
+From V Require Import Base.Prelude Base.Prog Prefix.Code Prefix.Thms Base.ProgThms Flate.Spec Flate.Canon.
 
 (* a bit field written LSB-first is read back unchanged, at any position of
    any stream *)
@@ -31,3 +31,18 @@ Print Assumptions gen_prefixes_refuses_unsorted.
 Theorem gen_lengths_sound_small_domain : sweep_ok = true.
 Proof. exact gen_lengths_small_sweep. Qed.
 Print Assumptions gen_lengths_sound_small_domain.
+
+(* RFC 1951 3.2.2, for EVERY length assignment with Kraft sum <= 1: the canonical codes fit
+   their lengths and no code word is a prefix of another *)
+Theorem canonical_codes_fit : forall lens s l c,
+  lens_pos lens -> kraft_ok lens -> In (s, l, c) (canonical lens) -> c < 2 ^ l.
+Proof. exact canonical_fits. Qed.
+Print Assumptions canonical_codes_fit.
+
+Theorem canonical_code_is_prefix_free : forall lens s1 l1 c1 s2 l2 c2,
+  lens_pos lens -> kraft_ok lens -> NoDup (map fst lens) ->
+  In (s1, l1, c1) (canonical lens) -> In (s2, l2, c2) (canonical lens) ->
+  (s1, l1, c1) <> (s2, l2, c2) ->
+  s1 <> s2 /\ ~ prefix_of (msb_bits (N.to_nat l1) c1) (msb_bits (N.to_nat l2) c2).
+Proof. exact canonical_prefix_free. Qed.
+Print Assumptions canonical_code_is_prefix_free.
